@@ -28,7 +28,7 @@ def requirements(tier):
     return {"min_counters": {"rebuild_comparisons": 300 if tier == "quick" else 5000, "undo_checks": 20, "previous_total_checks": 50,
                              "initial_total_checks": 50},
             "required_classes": ["job_shared_by_2_patterns", "server_shared_by_patterns", "jobless_pattern", "multi_timezone",
-                                 "network_shared", "edit_list_mut", "edit_group", "edit_link", "edit_num"]}
+                                 "network_shared", "edit_list_mut", "edit_group", "edit_link", "edit_num", "builder_model"]}
 
 
 def totals(system):
@@ -70,10 +70,15 @@ def f3_mechanism(spec_before, spec_after, stale):
 
 def run_case(case):
     rnd = case_rng(case["seed"], case["idx"], "C01")
-    h = Hist(rnd, case["tier"])
+    spec0 = None
+    if case["idx"] % 8 == 5:
+        # a model with every builder class (services, GPU and cloud servers): the same oracle, edits also on builder inputs
+        from .c17 import builder_spec
+        spec0 = builder_spec(rnd)
+    h = Hist(rnd, case["tier"], spec=spec0)
     C = {"rebuild_comparisons": 0, "slots_compared": 0, "undo_checks": 0, "previous_total_checks": 0, "initial_total_checks": 0,
          "boundary_skipped": 0, "ref_refused": 0, "live_refused": 0, "build_failed": 0, "edits_applied": 0, "edits_changing_values": 0}
-    classes = set(gen.topo_classes(h.spec))
+    classes = set(gen.topo_classes(h.spec)) | ({"builder_model"} if spec0 is not None else set())
     V = []
     if h.build_error:
         C["build_failed"] = 1
@@ -93,7 +98,12 @@ def run_case(case):
         if undo:
             e = edits.inverse(last[0], last[1]); e["kind"] = "undo"
         else:
-            e = h.propose(case.get("mix"))
+            if spec0 is not None and rnd.random() < 0.4:
+                from .c17 import builder_edit
+                e = builder_edit(rnd, h.spec) or h.propose(case.get("mix"))
+                e.setdefault("kind", "builder_input")
+            else:
+                e = h.propose(case.get("mix"))
         spec_before = h.spec
         spec_after = h.spec_after(e)
         ref = None
